@@ -216,6 +216,9 @@ func TestC37(t *testing.T) {
 			csrSubj.ExtraNames = csrSubj.ExtraNames[:1]
 		}
 		newKey := pki.Key(elliptic.P256(), 4900+k)
+		if rapid.Bool().Draw(rt, "renewSameKey") {
+			newKey = key // a renewal for the key the AS already holds
+		}
 		csrDER, err := x509.CreateCertificateRequest(rand.Reader, &x509.CertificateRequest{Subject: csrSubj}, newKey)
 		if err != nil {
 			rt.Fatalf("harness: %v", err)
